@@ -5,7 +5,7 @@ implementation and for modelrun_Engine, and canonicalisation of results.
 IR (nested tuples):
   ('tok', s) ('pat', regex) ('const', text) 'void' 'cut' 'eof' 'dot' 'empty'
   ('seq', [e..]) ('choice', [e..]) ('group', e) ('skipgroup', e) ('opt', e)
-  ('rep', plus, sep|None, omitsep, e) ('assoc', left, sep, e) ('look', neg, e) ('skipto', e) ('call', name)
+  ('rep', plus, sep|None, omitsep, e) ('assoc', left, sep, e) ('include', rule) ('look', neg, e) ('skipto', e) ('call', name)
   ('named', islist, name, e) ('over', islist, e)
 A grammar = {'rules': [(name, decorators, exp)], 'directives': {...}, 'keywords': [...]}
 """
@@ -33,7 +33,7 @@ def quote_pat(p: str) -> str:
     return '/' + p + '/'
 
 
-ATOMS = {'tok', 'pat', 'const', 'void', 'cut', 'eof', 'dot', 'empty', 'call', 'group', 'skipgroup', 'opt', 'rep', 'assoc', 'meta'}
+ATOMS = {'tok', 'pat', 'const', 'void', 'cut', 'eof', 'dot', 'empty', 'call', 'group', 'skipgroup', 'opt', 'rep', 'assoc', 'include', 'meta'}
 
 
 def kind(e):
@@ -67,6 +67,8 @@ def to_text(e, ctx='top') -> str:
         return '{}'
     if k == 'call':
         return e[1]
+    if k == 'include':       # >rule : the rule's expression, in place (docs/syntax.rst "rule include")
+        return '>' + e[1]
     if k == 'seq':
         s = ' '.join(to_text(x, 'seq') for x in e[1])
         return s if ctx in ('top', 'option') else '(' + s + ')'
@@ -178,6 +180,9 @@ def exp_sx(e, names: dict, tabs: Tables) -> str:
         return k
     if k == 'call':
         return f'(call {names[e[1]]})'
+    if k == 'include':
+        # the documented expansion: the included rule's expression stands in place of the include (transparent group)
+        return f'(group {exp_sx(tabs.rule_exps[e[1]], names, tabs)})'
     if k in ('seq', 'choice'):
         return f'({k} ' + ' '.join(exp_sx(x, names, tabs) for x in e[1]) + ')'
     if k in ('group', 'skipgroup', 'opt', 'skipto'):
@@ -602,6 +607,7 @@ def model_request(g, model, text: str, start: str | None, settings: Settings, se
     model's own layering (the generated parser resolves its configuration itself)."""
     names = {name: i for i, (name, _, _) in enumerate(g['rules'])}
     tabs = Tables()
+    tabs.rule_exps = {n: x for n, _, x in g['rules']}
     eff = effective_config(model, text, settings, cfg=cfg)
     if 'keywords' not in settings.extra and (cfg is None or g.get('keywords')):
         # the reserved words are the ones the grammar text declares (quotes removed), not what the implementation's configuration ended up holding
